@@ -56,55 +56,189 @@ def thrTok (l : List (Peer × Nat)) : String := "thr=" ++ showPeers (l.map (·.1
 
 /-- the monitor state that corresponds to a server state (for judging a single `resolve`) -/
 def monOf (st : St) : Mon :=
-  ⟨st.now, st.ongoing.map (fun e => (e.1, e.2.probe)), st.throttled, st.connected⟩
+  ⟨st.now, st.ongoing.map (fun e => (e.1, e.2.req)), st.throttled, st.connected, 0⟩
 
-def machine : Drv.Machine Unit Unit where
-  init _ := ()
-  specInit _ := ()
-  op _ args :=
+/-! ### op histories on the real `Behaviour` -/
+
+def parseCfg (toks : List String) : Cfg :=
+  match toks.find? (fun t => t.startsWith "cfg=") with
+  | none => ⟨16, 30, 3, 5⟩
+  | some t =>
+    match ((t.drop 4).toString.splitOn ",").mapM String.toNat? with
+    | some [a, b, c, d] => ⟨a, b, c, d⟩
+    | _ => ⟨16, 30, 3, 5⟩
+
+def optMaddr (t : String) : Option (Option Maddr) :=
+  if t = "none" then some none else (Maddr.parse t).map some
+
+def parseSeqOp : List String → Option Op
+  | ["warp", n] => n.toNat?.map .advance
+  | ["conn", p, c, obs, dialed] =>
+    match Drv.unhex p, c.toNat?, optMaddr obs, optMaddr dialed with
+    | some p, some c, some o, some d => some (.connEstablished p c o d)
+    | _, _, _, _ => none
+  | ["close", p, c, r] =>
+    match Drv.unhex p, c.toNat?, r.toNat? with
+    | some p, some c, some r => some (.connClosed p c r)
+    | _, _, _ => none
+  | ["req", p, _, rp, id, addrs] =>
+    match Drv.unhex p, Drv.unhex rp, id.toNat?, Maddr.parseList addrs with
+    | some p, some rp, some id, some as => some (.request p rp id as)
+    | _, _, _, _ => none
+  | ["ifail", p, id] =>
+    match Drv.unhex p, id.toNat? with
+    | some p, some id => some (.inboundFailure p id)
+    | _, _ => none
+  | ["rsent", p, id] =>
+    match Drv.unhex p, id.toNat? with
+    | some p, some id => some (.responseSent p id)
+    | _, _ => none
+  | ["dialfail", p] =>
+    if p = "none" then some (.dialFailure none) else (Drv.unhex p).map (fun p => .dialFailure (some p))
+  | _ => none
+
+def refusalCode : Option Refusal → String
+  | some .peerIdMismatch => "BadRequest"
+  | _ => "DialRefused"
+
+/-- the `ToSwarm` actions of one output -/
+def evTok : Out → String
+  | .nothing => "-"
+  | .dial probe peer as =>
+    s!"req,{probe},{Drv.hex peer},{Maddr.renderList as}+dial,{Drv.hex peer},{Maddr.renderList as}"
+  | .refused probe peer why => s!"err,{probe},{Drv.hex peer},resp-{refusalCode why}"
+  | .inboundErr probe peer => s!"err,{probe},{Drv.hex peer},inbound"
+  | .response probe peer addr => s!"ok,{probe},{Drv.hex peer},{Maddr.render addr}"
+  | .dialFailed probe peer => s!"err,{probe},{Drv.hex peer},resp-DialError"
+  | .panic => "panic"
+
+/-- what happens to a response channel during the op: `st` is the state BEFORE the op -/
+def respTok (st : St) (op : Op) (out : Out) : String :=
+  match op, out with
+  | .request _ _ reqId _, .refused _ _ (some e) => s!"{reqId}:Err,{refusalTok e |>.splitOn " " |>.reverse |> ",".intercalate}"
+  | .request _ _ reqId _, .refused _ _ none => s!"{reqId}:dropped"
+  | _, .response _ peer addr =>
+    match lookup st.ongoing peer with
+    | some o => s!"{o.req}:Ok,{Maddr.render addr}"
+    | none => "?"
+  | _, .dialFailed _ peer =>
+    match lookup st.ongoing peer with
+    | some o => s!"{o.req}:Err,DialError,dial_failed"
+    | none => "?"
+  | .inboundFailure peer reqId, _ =>
+    match lookup st.ongoing peer with
+    | some o => if o.req == reqId then s!"{reqId}:dropped" else "-"
+    | none => "-"
+  | _, _ => "-"
+
+def sortedPeers (l : List Peer) : String :=
+  let hs := (l.map Drv.hex).mergeSort (fun a b => decide (a ≤ b))
+  if hs.isEmpty then "-" else ",".intercalate hs
+
+def stateTok (st : St) : String :=
+  s!"ongoing={sortedPeers (st.ongoing.map (·.1))} thr={showPeers (st.throttled.map (·.1))}"
+
+/-- parse the implementation's `ev=` token back into an `Out` (`none` = not a legal action shape) -/
+def parseEv (tok : String) : Option Out :=
+  if tok = "-" then some .nothing else
+  match (tok.splitOn "+").map (·.splitOn ",") with
+  | [["req", pr, p, as], ["dial", p2, as2]] =>
+    match pr.toNat?, Drv.unhex p, Maddr.parseList as with
+    | some pr, some pp, some l => if p = p2 && as = as2 then some (.dial pr pp l) else none
+    | _, _, _ => none
+  | [["err", pr, p, kind]] =>
+    match pr.toNat?, Drv.unhex p with
+    | some pr, some p =>
+      if kind = "inbound" then some (.inboundErr pr p)
+      else if kind = "resp-DialError" then some (.dialFailed pr p)
+      else some (.refused pr p none)
+    | _, _ => none
+  | [["ok", pr, p, a]] =>
+    match pr.toNat?, Drv.unhex p, Maddr.parse a with
+    | some pr, some p, some a => some (.response pr p a)
+    | _, _, _ => none
+  | _ => none
+
+def parsePeers (tok : String) : Option (List Peer) :=
+  if tok = "-" then some [] else (tok.splitOn ",").mapM Drv.unhex
+
+def seqOps : List String := ["warp", "conn", "close", "req", "ifail", "rsent", "dialfail"]
+
+/-- judge one observed (op, impl line) pair of a history -/
+def seqSpec (cfg : Cfg) (m : Mon) (op : Op) (outs : List String) : Mon × String :=
+  match outs with
+  | [ev, _, ong, _] =>
+    match parseEv ((ev.drop 3).toString), parsePeers ((ong.drop 8).toString) with
+    | some out, some keys =>
+      match monStep cfg m op out with
+      | (m', some k) => (m', "FAIL:" ++ k)
+      | (m', none) =>
+        -- dial-backs started minus finished is ≤ 1 per peer and = 1 exactly for the keys of ongoing_inbound
+        if ongoingOk m' keys then (m', "ok") else (m', "FAIL:ongoing_vs_inflight")
+    | _, _ => (m, "FAIL:unparsable")
+  | _ => (m, "FAIL:unparsable")
+
+def machine : Drv.Machine (Cfg × St) (Cfg × Mon) where
+  init toks := (parseCfg toks, St.init)
+  specInit toks := (parseCfg toks, Mon.init)
+  op s args :=
+    if seqOps.contains (args.headD "") then
+      match parseSeqOp args with
+      | none => (s, "bad-op")
+      | some op =>
+        let (st', out) := step s.1 s.2 op
+        ((s.1, st'), s!"ev={evTok out} resp={respTok s.2 op out} {stateTok st'}")
+    else
     match args with
     | ["filter", p, obs, l] =>
       match Drv.unhex p, Maddr.parse obs, Maddr.parseList l with
-      | some p, some obs, some l => ((), Maddr.renderList (filterValidAddrs p l obs))
-      | _, _, _ => ((), "bad-op")
+      | some p, some obs, some l => (s, Maddr.renderList (filterValidAddrs p l obs))
+      | _, _, _ => (s, "bad-op")
     | "resolve" :: rest =>
       match parseResolve rest with
-      | none => ((), "bad-op")
+      | none => (s, "bad-op")
       | some i =>
         match resolve i.cfg i.st i.sender i.reqPeer i.addrs with
-        | (_, .error .panicNotConnected) => ((), "panic Peer_is_connected.")
-        | (thr, .error e) => ((), s!"err {refusalTok e} {thrTok thr}")
-        | (thr, .ok as) => ((), s!"ok {Maddr.renderList as} {thrTok thr}")
-    | _ => ((), "bad-op")
-  spec _ args outs :=
+        | (_, .error .panicNotConnected) => (s, "panic Peer_is_connected.")
+        | (thr, .error e) => (s, s!"err {refusalTok e} {thrTok thr}")
+        | (thr, .ok as) => (s, s!"ok {Maddr.renderList as} {thrTok thr}")
+    | _ => (s, "bad-op")
+  spec t args outs :=
+    if seqOps.contains (args.headD "") then
+      match parseSeqOp args with
+      | none => (t, "FAIL:unparsable")
+      | some op =>
+        let (m', v) := seqSpec t.1 t.2 op outs
+        ((t.1, m'), v)
+    else
     match args with
     | ["filter", p, obs, _] =>
       match Drv.unhex p, Maddr.parse obs, outs with
       | some p, some obs, [r] =>
         match Maddr.parseList r with
-        | some r => ((), specFilterKey p obs r)
-        | none => ((), "FAIL:unparsable")
-      | _, _, "panic" :: _ => ((), "FAIL:panic")
-      | _, _, _ => ((), "FAIL:unparsable")
+        | some r => (t, specFilterKey p obs r)
+        | none => (t, "FAIL:unparsable")
+      | _, _, "panic" :: _ => (t, "FAIL:panic")
+      | _, _, _ => (t, "FAIL:unparsable")
     | "resolve" :: rest =>
       match parseResolve rest with
-      | none => ((), "FAIL:unparsable")
+      | none => (t, "FAIL:unparsable")
       | some i =>
         match outs with
         | ["ok", l, _] =>
           match Maddr.parseList l with
-          | none => ((), "FAIL:unparsable")
+          | none => (t, "FAIL:unparsable")
           | some as =>
             -- an accepted request is judged exactly like a `dial` output of the state machine
-            match (monStep i.cfg (monOf i.st) (.advance 0) (.dial 0 i.sender as)).2 with
-            | none => ((), "ok")
-            | some k => ((), "FAIL:" ++ k)
-        | "err" :: _ => ((), "ok")
+            match (monStep i.cfg (monOf i.st) (.request i.sender i.sender 0 []) (.dial 0 i.sender as)).2 with
+            | none => (t, "ok")
+            | some k => (t, "FAIL:" ++ k)
+        | "err" :: _ => (t, "ok")
         | "panic" :: _ =>
           -- `expect("Peer is connected.")` is guarded by `handle_event`; the hook calls past the guard
-          ((), if hasKey i.st.connected i.sender then "FAIL:panic" else "ok")
-        | _ => ((), "FAIL:unparsable")
-    | _ => ((), "FAIL:unparsable")
+          (t, if hasKey i.st.connected i.sender then "FAIL:panic" else "ok")
+        | _ => (t, "FAIL:unparsable")
+    | _ => (t, "FAIL:unparsable")
 
 end Driver.C50
 
